@@ -153,8 +153,26 @@ def check(ctx):
     ctx.floor("C05.c", n_end_uses, 2, "uses of a tracker end() result")
     if rel is not None:
         ctx.touch(rel)
-        dec = [b for b, t, fr in rel.iter_calls() if fr and lib.tail(mir.fn_name(fr), 1) == "decrement"]
-        done = [b for b, t, fr in rel.iter_calls() if fr and lib.tail(mir.fn_name(fr), 1) == "is_done"]
+        # the counter's methods by what they do: *decrement* subtracts the constant 1 from the count, *done* returns `count == 0`
+        # (one method may do both: `fn decrement(&mut self) -> bool`)
+        def _subs(m_):
+            out_ = []
+            for b_, t_, fr_ in m_.iter_calls():
+                if fr_ and lib.tail(mir.fn_name(fr_), 1) in ("saturating_sub", "wrapping_sub", "checked_sub"):
+                    out_.append(lib.const_val(t_["args"][1]))
+            for b_, i_, st_ in m_.iter_stmts():
+                if st_["k"] == "assign" and "bin" in st_["rv"] and st_["rv"]["bin"]["op"].startswith("Sub"):
+                    out_.append(lib.const_val(st_["rv"]["bin"]["r"]))
+            return out_
+
+        def _cmp0(m_):
+            return [(st_["rv"]["bin"]["op"], lib.const_val(st_["rv"]["bin"]["r"])) for b_, i_, st_ in m_.iter_stmts()
+                    if st_["k"] == "assign" and "bin" in st_["rv"] and st_["rv"]["bin"]["op"] in ("Eq", "Le", "Lt")]
+        cm = [m_ for m_ in A.methods_of(prog, "DataEntityCounter")]
+        dec_ms = [m_ for m_ in cm if _subs(m_)]
+        done_ms = [m_ for m_ in cm if m_.local_ty(0) == "bool" and _cmp0(m_)]
+        dec = [b for b, t, fr in rel.iter_calls() if fr and prog.resolve_local(fr) in dec_ms]
+        done = [b for b, t, fr in rel.iter_calls() if fr and prog.resolve_local(fr) in done_ms]
         desp = [b for b, t, fr in rel.iter_calls() if fr and lib.tail(mir.fn_name(fr), 2) in ("World::despawn", "World::try_despawn")]
         ok = bool(dec) and bool(done) and bool(desp)
         if ok:
@@ -165,28 +183,26 @@ def check(ctx):
         ctx.check(ok, "C05.c", "release-helper:decrement-then-despawn-if-done", "%s:%d" % (rel.file, rel.line),
                   "decrement, then despawn the same entity only on the is_done() arm",
                   "release helper does not decrement then despawn its entity only when the count reached zero")
-        try:
-            decm = A.method(prog, "DataEntityCounter", "decrement")
-            isd = A.method(prog, "DataEntityCounter", "is_done")
+        if dec_ms and done_ms:
+            decm, isd = dec_ms[0], done_ms[0]
             ctx.touch(decm)
             ctx.touch(isd)
-            subs = []
-            for b, t, fr in decm.iter_calls():
-                if fr and lib.tail(mir.fn_name(fr), 1) in ("saturating_sub", "wrapping_sub", "checked_sub"):
-                    subs.append(lib.const_val(t["args"][1]))
-            for b, i, st in decm.iter_stmts():
-                if st["k"] == "assign" and "bin" in st["rv"] and st["rv"]["bin"]["op"].startswith("Sub"):
-                    subs.append(lib.const_val(st["rv"]["bin"]["r"]))
+            subs = [x for m_ in dec_ms for x in _subs(m_)]
             ctx.check(subs == [1], "C05.c", "DataEntityCounter::decrement:subtracts-one", "%s:%d" % (decm.file, decm.line),
                       "subtracts the constant 1", "decrement subtracts %s" % subs)
-            cmp0 = []
-            for b, i, st in isd.iter_stmts():
-                if st["k"] == "assign" and "bin" in st["rv"] and st["rv"]["bin"]["op"] in ("Eq", "Le", "Lt"):
-                    cmp0.append((st["rv"]["bin"]["op"], lib.const_val(st["rv"]["bin"]["r"])))
+            cmp0 = _cmp0(isd)
             ctx.check(cmp0 in ([("Eq", 0)], [("Le", 0)], [("Lt", 1)]), "C05.c", "DataEntityCounter::is_done:compares-with-zero", "%s:%d" % (isd.file, isd.line),
                       "is_done() is count == 0", "is_done compares %s" % cmp0)
-        except mir.AnchorLost as e:
-            ctx.fail("C05.c", "anchor-lost:DataEntityCounter", "", str(e))
+            # the zero test reads the count *after* the subtraction when one method does both
+            if decm is isd:
+                sub_b = [b_ for b_, t_, fr_ in decm.iter_calls() if fr_ and lib.tail(mir.fn_name(fr_), 1) in ("saturating_sub", "wrapping_sub", "checked_sub")] + \
+                        [b_ for b_, i_, st_ in decm.iter_stmts() if st_["k"] == "assign" and "bin" in st_["rv"] and st_["rv"]["bin"]["op"].startswith("Sub")]
+                cmp_b = [b_ for b_, i_, st_ in decm.iter_stmts() if st_["k"] == "assign" and "bin" in st_["rv"] and st_["rv"]["bin"]["op"] in ("Eq", "Le", "Lt")]
+                ctx.check(all(decm.dominates(sb_, cb_) and sb_ != cb_ or sb_ == cb_ for sb_ in sub_b for cb_ in cmp_b) and all(
+                    cb_ in decm.reach_from(sb_) for sb_ in sub_b for cb_ in cmp_b), "C05.c", "DataEntityCounter::decrement:zero-test-after-subtraction",
+                    "%s:%d" % (decm.file, decm.line), "the zero test follows the subtraction", "the zero test precedes the subtraction (done would be reported one reader late)")
+        else:
+            ctx.fail("C05.c", "anchor-lost:DataEntityCounter", "", "no decrement / zero-test method found on the counter type")
 
     # system events: the payload entity that the command names is the one spawned with the caller's event, and the command
     # is for the caller's target system (so end_system_event despawns exactly that payload)
